@@ -111,7 +111,7 @@ def run_e2e(ctx, n, tag):
     failures = []
     nontriv = 0
     for (name, target, text, want), (rc, so, se) in zip(jobs, common.pmap(one, jobs)):
-        if rc != 0 or so.strip().endswith("timeout"):
+        if rc != 0 or "timeout" in so.split("\n"):
             continue
         if len(want) >= 2:
             nontriv += 1
